@@ -112,8 +112,8 @@ func VerifHarness_C17_Mluc() {
 	offs := make([]int, r)
 	lens := make([]int, r)
 	for i := 0; i < r; i++ {
-		lang[i] = verifBytes(4) // language, country
-		lens[i] = 2 * (1 + verifChoice(2))
+		lang[i] = verifBytes(4)      // language, country
+		lens[i] = 2 * verifChoice(3) // 0, 1 or 2 code units (an empty string may sit at the very end of the tag)
 		offs[i] = hdr + 2*verifChoice((area-lens[i])/2+1)
 		tag = append(tag, lang[i]...)
 		tag = append(tag, verifPut32(uint32(lens[i]))...)
@@ -137,7 +137,9 @@ func VerifHarness_C17_Mluc() {
 		want := string(utf16.Decode(units))
 		same := verifEqBytes([]byte(s), []byte(want))
 		en := verifAnd(lang[i][0] == 'e', lang[i][1] == 'n')
-		anyEn = verifOr(anyEn, en)
+		// an 'en' record whose string is empty does not count: the accessor then falls back to
+		// any record (the property fixes the choice only when an English string exists)
+		anyEn = verifOr(anyEn, verifAnd(en, lens[i] > 0))
 		isAnyRecord = verifOr(isAnyRecord, same)
 		isEnRecord = verifOr(isEnRecord, verifAnd(en, same))
 	}
